@@ -44,7 +44,9 @@ def cases(draw):
     for _ in range(n):
         st_ = draw(st.sampled_from(["json"] * 6 + ["missing", "notjson", "notutf8"]))
         val = draw(GI.instance_for(schema if isinstance(schema, dict) else {}, 0)) if st_ == "json" else None
-        insts.append({"state": st_, "value": val})
+        insts.append({"state": st_, "value": val,
+                      "name": draw(st.sampled_from(["", "", "", " with space", "{}", "{0}", "{x}", "{{y}}", "%s", "'q'",
+                                                    "é", "[1]", "$", "{error}"]))})
     stdin = None
     if n == 0:
         k = draw(st.sampled_from(["json", "json", "notjson"]))
@@ -85,7 +87,7 @@ def materialise(case, tmp):
     argv = []
     ipaths = []
     for i, inst in enumerate(case["instances"]):
-        p = os.path.join(tmp, "inst%d.json" % i)
+        p = os.path.join(tmp, "inst%d%s.json" % (i, inst.get("name", "")))
         if inst["state"] == "json":
             with open(p, "w") as f:
                 json.dump(inst["value"], f)
@@ -218,7 +220,7 @@ class C19(Prop):
             "instance after a bad one, or a schema failure.")
     ASSUMPTIONS = ["the wording of diagnostics is not asserted, only that each names its file and is one unit",
                    "which non-zero status is returned is not asserted"]
-    GATES = {"good-after-bad": 100, "schema:invalid": 20, "schema:missing": 20, "pretty": 200, "base-uri": 50,
+    GATES = {"hostile-file-name": 100, "good-after-bad": 100, "schema:invalid": 20, "schema:missing": 20, "pretty": 200, "base-uri": 50,
              "explicit-validator": 100, "stdin": 30, "inst:notutf8": 30}
     MIN_NONTRIVIAL = 200
 
@@ -232,7 +234,8 @@ class C19(Prop):
             wf = (case["schema_state"] in ("valid", "missing", "notjson", "invalid", "notutf8")
                   and case["output"] in ("plain", "pretty") and case["draft"] in impl.DRAFTS
                   and case["validator"] in (None, 3, 4, 6, 7) and isinstance(case["instances"], list)
-                  and all(i["state"] in ("json", "missing", "notjson", "notutf8") for i in case["instances"])
+                  and all(i["state"] in ("json", "missing", "notjson", "notutf8") and "/" not in i.get("name", "")
+                          and "\x00" not in i.get("name", "") and len(i.get("name", "")) < 40 for i in case["instances"])
                   and (case["instances"] or (isinstance(case["stdin"], dict) and case["stdin"]["state"] in ("json", "notjson")))
                   and (case["error_format"] is None or (case["output"] == "plain" and case["error_format"] in FORMATS))
                   and isinstance(case["base_uri"], bool))
@@ -293,6 +296,8 @@ class C19(Prop):
             res.labels.append("stdin")
         for s_ in set(states):
             res.labels.append("inst:" + s_)
+        if any(i.get("name") for i in case["instances"]):
+            res.labels.append("hostile-file-name")
         res.nontrivial = good_after_bad or case["schema_state"] != "valid" or len(set(u[0] for u in units)) >= 2
         return res
 
